@@ -41,7 +41,7 @@ def build(spec, env):
 class Run:
     """everything observed in one scheduler run"""
 
-    def __init__(self, spec, clause="C12.no_exception", monitor=None, lab=None):
+    def __init__(self, spec, clause="C12.no_exception", monitor=None, lab=None, detach_out=False):
         self.spec = spec
         self.lab = lab = lab if lab is not None else Lab(clause=clause)
         self.sched = sched = build(spec, lab.env)
@@ -50,6 +50,10 @@ class Run:
         # the next hop may look back at the scheduler the moment a packet is handed to it (back-pressure, accounting): the packet
         # being handed over has left - it is neither waiting nor in transmission any more
         self.out.on_put = lambda rec: self._counters("C12.counters/handoff", at_handoff=True)
+        self.detached = detach_out
+        self.states = []        # (now, per-flow (size, bytes), id of the packet in service) after every step
+        if detach_out:
+            sched.out = None    # a scheduler without a next hop is legal: transmitted packets simply leave the simulation
         self.entry = lab.tap("in", sched)
         self.flows = sorted({w[1] for w in spec["wl"]})
         self.samples = []       # (step, now, id(packet_in_service) or None)
@@ -68,6 +72,12 @@ class Run:
             monitor(self)
 
     def _after_step(self):
+        sched = self.sched
+        p = sched.packet_in_service
+        self.states.append((self.lab.env.now, tuple((f, sched.size(f), sched.byte_size(f)) for f in self.flows),
+                            None if p is None else p.packet_id))
+        if self.detached:
+            return
         self._counters("C12.counters/flow")
         self.counter_checks += 1
         self.samples.append((self.lab.steps, self.lab.env.now, self.sched.packet_in_service))
